@@ -6,6 +6,7 @@ IMPLEMENTATION's outputs with exact integer arithmetic. -/
 import ElysModel.Drv.Util
 import ElysModel.Amm.Swap
 import ElysModel.Amm.Liquidity
+import ElysModel.Amm.Oracle
 open Lean
 namespace Elys.Drv.Amm
 open Elys Elys.Amm
@@ -119,6 +120,52 @@ def handlePow (i : Nat) (j : Json) : List Json :=
     let vs := diffs ++ viols
     if vs.isEmpty then [verdictOk i] else vs
   | _, _, _ => [verdictBad i "c03.case pow fields"]
+
+/-! ### C03, oracle pools -/
+
+def parseOAsset (j : Json) : Option OAsset :=
+  match jIntList? j with
+  | some [amount, weight, ext, price, acc, snap] =>
+    some { amount := amount, weight := weight, ext := ext, price := price, acc := acc, snap := snap }
+  | _ => none
+
+def handleOracle (i : Nat) (j : Json) (fn : String) : List Json :=
+  match parseOAsset (fld j "a0"), parseOAsset (fld j "a1"), fInt? j "iIn", fInt? j "amt", fInt? j "fee", fInts? j "params", fStr? j "res" with
+  | some a0, some a1, some iIn, some amt, some fee, some [ex, mu, po, th, pf], some res =>
+    let p : OPool := { a0 := a0, a1 := a1 }
+    let pr : OParams := { exponent := ex, multiplier := mu, portion := po, threshold := th, perpFactor := pf }
+    let ii := iIn.toNat
+    let m := if fn == "oout" then oSwapOut p ii amt fee pr else oSwapIn p ii amt fee pr
+    let mk := kind m
+    let iAmt := (fInt? j "amount").getD 0
+    let diffs : List Json :=
+      if mk != res then [verdictDiff i "result" (Json.str (mk ++ ":" ++ (match m with | .error e => reprStr e | _ => ""))) (Json.str res)]
+      else match m with
+        | .ok r =>
+          cmpI "amount" r.amount iAmt ++ cmpI "slippage" r.slippage ((fInt? j "slip").getD 0) ++
+          cmpI "slippageAmount" r.slippageAmount ((fInt? j "slipAmt").getD 0) ++ cmpI "bonus" r.bonus ((fInt? j "bonus").getD 0) ++
+          cmpI "oracleAmount" r.oracleAmount ((fInt? j "oracleAmt").getD 0)
+        | .error _ => []
+    -- what the pool pays out is never worth more, at the oracle prices, than what the trader pays in
+    let ai := p.get ii
+    let ao := p.get (1 - ii)
+    let sane := 0 ≤ fee ∧ fee < P ∧ 0 ≤ mu ∧ 0 ≤ pf ∧ pf ≤ P ∧ ao.ext > 0 ∧ ai.price > 0 ∧ ao.price > 0 ∧ amt ≥ 0
+    let viols : List Json :=
+      if res != "ok" ∨ ¬ sane then [] else
+      if fn == "oout" then
+        -- out·p_out ≤ in·p_in + p_out/(2·10^18)
+        (if 2 * P * iAmt * ao.price ≤ 2 * P * amt * ai.price + ao.price then [] else
+          [verdictViol i "C03.oracle_value" (Json.mkObj [("out", mkInt iAmt), ("in", mkInt amt), ("priceIn", mkInt ai.price), ("priceOut", mkInt ao.price)])])
+      else
+        -- in·p_in ≥ out·p_out − p_in·(1/2 + 10^-18)/10^18
+        (if 2 * P * P * iAmt * ai.price + ai.price * (P + 2) ≥ 2 * P * P * amt * ao.price then [] else
+          [verdictViol i "C03.oracle_in_value" (Json.mkObj [("in", mkInt iAmt), ("out", mkInt amt), ("priceIn", mkInt ai.price), ("priceOut", mkInt ao.price)])])
+    let vs := diffs ++ viols
+    if vs.isEmpty then [verdictOk i] else vs
+  | _, _, _, _, _, _, _ => [verdictBad i "c03.case oracle fields"]
+where
+  cmpI (what : String) (m impl : Int) : List Json :=
+    if m != impl then [verdictDiff i what (mkInt m) (mkInt impl)] else []
 
 /-! ### C05 -/
 
@@ -254,6 +301,8 @@ def handle (s : S) (i : Nat) (j : Json) : S × List Json :=
     | some "out" => (s, handleSwap i j "out")
     | some "in" => (s, handleSwap i j "in")
     | some "pow" => (s, handlePow i j)
+    | some "oout" => (s, handleOracle i j "oout")
+    | some "oin" => (s, handleOracle i j "oin")
     | _ => (s, [verdictBad i "c03.case fn"])
   | some "c05.case" => (s, handleLp i j)
   | some "stats" => (s, [])
